@@ -100,7 +100,7 @@ void set_exit_jump(void *jmpbuf_or_null);
 extern int g_exit_code;
 
 // step budget (hang guard)
-extern long g_steps, g_step_budget;
+extern long g_steps, g_step_budget, g_byte_budget;
 void step();
 
 // goto-cache self-check result
